@@ -193,7 +193,7 @@ PaymentCreate(S, aid, l, rec, owner, rate) ==
   LET st == Settle(S, aid) IN
   IF st.err \/ st.od \/ rate = 0 \/ Has(st.S.epay, l) THEN [S |-> S, err |-> TRUE]
   ELSE [S |-> [st.S EXCEPT !.epay = Put(@, l, rec @@ [acct |-> aid, owner |-> owner, state |-> "open", rate |-> rate,
-                                                      balance |-> 0, withdrawn |-> 0])],
+                                                      balance |-> 0, withdrawn |-> 0, createdAt |-> S.height])],
         err |-> FALSE]
 
 PaymentWithdraw(S, l) ==
@@ -357,6 +357,19 @@ DeleteAttributes(S, a) ==
 
 NextBlock(S, a) == OK([S EXCEPT !.height = @ + a.gap])
 
+(* keeper-level actions: the escrow keeper driven directly (family "E": numerically exhaustive C02/C01/C03). *)
+(* The account is ("deployment", t/d) without a deployment record, so the market hooks find nothing to do.   *)
+KAccountCreate(S, a) ==
+  Res(AccountCreate(S, DAcc(DId(a.t, a.d)), [scope |-> "deployment", d |-> DId(a.t, a.d), t |-> a.t, dseq |-> a.d], a.t, a.deposit))
+KDeposit(S, a)       == Res(AccountDeposit(S, DAcc(DId(a.t, a.d)), a.amount))
+KSettle(S, a)        == LET st == Settle(S, DAcc(DId(a.t, a.d))) IN [S |-> st.S, err |-> st.err, bound |-> FALSE]
+KAccountClose(S, a)  == Res(AccountClose(S, DAcc(DId(a.t, a.d))))
+KPaymentCreate(S, a) ==
+  Res(PaymentCreate(S, DAcc(DId(a.t, a.d)), BId(a.t, a.d, a.g, a.o, a.p),
+                    [d |-> DId(a.t, a.d), g |-> a.g, o |-> a.o, p |-> a.p], a.p, a.rate))
+KPaymentWithdraw(S, a) == Res(PaymentWithdraw(S, BId(a.t, a.d, a.g, a.o, a.p)))
+KPaymentClose(S, a)    == Res(PaymentClose(S, BId(a.t, a.d, a.g, a.o, a.p)))
+
 Handler(S, a) ==
   CASE a.act = "CreateDeployment"  -> CreateDeployment(S, a)
     [] a.act = "DepositDeployment" -> DepositDeployment(S, a)
@@ -375,6 +388,13 @@ Handler(S, a) ==
     [] a.act = "SignAttributes"    -> SignAttributes(S, a)
     [] a.act = "DeleteAttributes"  -> DeleteAttributes(S, a)
     [] a.act = "NextBlock"         -> NextBlock(S, a)
+    [] a.act = "KAccountCreate"    -> KAccountCreate(S, a)
+    [] a.act = "KDeposit"          -> KDeposit(S, a)
+    [] a.act = "KSettle"           -> KSettle(S, a)
+    [] a.act = "KAccountClose"     -> KAccountClose(S, a)
+    [] a.act = "KPaymentCreate"    -> KPaymentCreate(S, a)
+    [] a.act = "KPaymentWithdraw"  -> KPaymentWithdraw(S, a)
+    [] a.act = "KPaymentClose"     -> KPaymentClose(S, a)
 
 \* what runTx does: commit on success, discard on error
 Apply(S, a) == LET r == Handler(S, a) IN [S |-> IF r.err THEN S ELSE r.S, ok |-> ~r.err, bound |-> r.bound]
@@ -382,7 +402,8 @@ Apply(S, a) == LET r == Handler(S, a) IN [S |-> IF r.err THEN S ELSE r.S, ok |->
 \* the party whose signature the protocol requires (C06)
 RequiredSigner(a) ==
   CASE a.act \in {"CreateDeployment", "DepositDeployment", "UpdateDeployment", "CloseDeployment",
-                  "CloseGroup", "PauseGroup", "StartGroup", "CreateLease", "CloseLease"} -> a.t
+                  "CloseGroup", "PauseGroup", "StartGroup", "CreateLease", "CloseLease",
+                  "KAccountCreate", "KDeposit"} -> a.t
     [] a.act \in {"CreateBid", "CloseBid", "WithdrawLease", "CreateProvider", "UpdateProvider"} -> a.p
     [] a.act \in {"SignAttributes", "DeleteAttributes"} -> a.a
     [] OTHER -> "none"
